@@ -94,7 +94,16 @@ var (
 	nodePath  string
 )
 
+// findNode looks for node/nodejs. VERIF_NODE overrides the search (a path
+// that does not exist means "no node", which is how the exit-2 path is
+// exercised).
 func findNode() string {
+	if v := os.Getenv("VERIF_NODE"); v != "" {
+		if st, err := os.Stat(v); err == nil && !st.IsDir() {
+			return v
+		}
+		return ""
+	}
 	for _, n := range []string{"node", "nodejs"} {
 		if p, err := exec.LookPath(n); err == nil {
 			return p
@@ -639,7 +648,7 @@ func TestC33(t *testing.T) {
 		Oracle:   oracle,
 		Fixed:    fixed,
 		Quick:    300,
-		Thorough: 6000,
+		Thorough: 2500,
 		Extra: func() map[string]any {
 			v := ""
 			if theWorker != nil {
